@@ -53,15 +53,15 @@ type MemSnap struct {
 }
 
 type State struct {
-	lines   *lineNode
-	mem     map[string]string
-	bases   map[string][]memBase
-	heapTop string
-	active  map[string]int // loop header key -> visit count (or 1 = active cut point)
-	vars    map[string]varBinding
+	lines    *lineNode
+	mem      map[string]string
+	bases    map[string][]memBase
+	heapTop  string
+	active   map[string]int // loop header key -> visit count (or 1 = active cut point)
+	vars     map[string]varBinding
 	pathDesc []string
 	ownRoots *lineNode // roots (heapTop terms) of objects allocated by the function under verification on this path
-	epoch   string // id of the last havoc-everything event ("0" = function entry)
+	epoch    string    // id of the last havoc-everything event ("0" = function entry)
 	epochTop string
 }
 
@@ -106,16 +106,16 @@ func (s *State) assume(f string) {
 // ---------- verification context ----------
 
 type Obligation struct {
-	Name     string // stable name
-	Func     string
-	Kind     string
-	Desc     string
-	Tags     []string
-	Lines    []string
-	Goal     string
-	Path     string
-	Clause   *Clause
-	Pos      string
+	Name   string // stable name
+	Func   string
+	Kind   string
+	Desc   string
+	Tags   []string
+	Lines  []string
+	Goal   string
+	Path   string
+	Clause *Clause
+	Pos    string
 	// results
 	Expect   string // "" = goal must be valid (negation unsat); "sat" = lines must be satisfiable
 	Status   string // unsat(discharged) sat unknown timeout error
@@ -123,23 +123,24 @@ type Obligation struct {
 	Time     float64
 	Model    string
 	QueryLen int
+	Trivial  bool // goal is syntactically true: discharged by construction, no solver call
 }
 
 type Frame struct {
-	id       int
-	fn       *ssa.Function
-	regs     map[ssa.Value]T
-	onReturn func(st *State, results []T)
-	defers   []func(st *State, k func(st *State))
-	depth    int
-	parent   *Frame
-	loops    map[*ssa.BasicBlock]*loopInfo
-	contract *Contract
-	entry    *MemSnap
-	env      map[string]T // param / result names for the contract
-	paramSet map[string]bool
+	id        int
+	fn        *ssa.Function
+	regs      map[ssa.Value]T
+	onReturn  func(st *State, results []T)
+	defers    []func(st *State, k func(st *State))
+	depth     int
+	parent    *Frame
+	loops     map[*ssa.BasicBlock]*loopInfo
+	contract  *Contract
+	entry     *MemSnap
+	env       map[string]T // param / result names for the contract
+	paramSet  map[string]bool
 	paramObjs map[string]types.Object
-	top      bool
+	top       bool
 }
 
 type loopInfo struct {
@@ -150,36 +151,36 @@ type loopInfo struct {
 }
 
 type Ctx struct {
-	eng       *Engine
-	reg       *Registry
-	fn        *ssa.Function
-	contract  *Contract
-	obls      []*Obligation
-	counter   int
-	frameCtr  int
-	paths     int
-	maxPaths  int
-	aborted   string
-	property  string // selected property tag ("" = all)
-	unknownCalls map[string]int
-	trustedUsed  map[string]bool
-	inlined      map[string]bool
-	ifaceTypes   map[string]types.Type
-	ordinals  map[string]int
-	instrOrd  map[ssa.Instruction]int
-	h0        string
-	entrySnap *MemSnap
-	topFrame  *Frame
-	stack     []*ssa.Function
-	safety    bool
-	returns   int
-	memSorts  map[string]string
-	prune     bool
-	usedPures map[string]bool
-	ignoreWith   bool
-	callArgRoots []string // roots of the objects directly referenced by the arguments of the call being applied
-	assumedClauses map[string]bool
-	foreignUsed bool
+	eng             *Engine
+	reg             *Registry
+	fn              *ssa.Function
+	contract        *Contract
+	obls            []*Obligation
+	counter         int
+	frameCtr        int
+	paths           int
+	maxPaths        int
+	aborted         string
+	property        string // selected property tag ("" = all)
+	unknownCalls    map[string]int
+	trustedUsed     map[string]bool
+	inlined         map[string]bool
+	ifaceTypes      map[string]types.Type
+	ordinals        map[string]int
+	instrOrd        map[ssa.Instruction]int
+	h0              string
+	entrySnap       *MemSnap
+	topFrame        *Frame
+	stack           []*ssa.Function
+	safety          bool
+	returns         int
+	memSorts        map[string]string
+	prune           bool
+	usedPures       map[string]bool
+	ignoreWith      bool
+	callArgRoots    []string // roots of the objects directly referenced by the arguments of the call being applied
+	assumedClauses  map[string]bool
+	foreignUsed     bool
 	skippedAtReturn map[string]int
 }
 
